@@ -237,7 +237,7 @@ def _run_chunk(args):
     idx, hists, harness = args
     text = "".join("\n".join(ops) + "\nreset\n" for _, ops in hists)
     try:
-        r = core.run_pair(text, harness, tag=f"chunk{idx}", timeout=CHUNK_TIMEOUT)
+        r = core.run_pair(text, harness, tag=f"chunk{idx}", timeout=CHUNK_TIMEOUT, partial_on_timeout=True)
     except subprocess.TimeoutExpired:
         r = dict(impl="", model="", impl_rc=-9, model_rc=-9, impl_err="timeout", model_err="timeout")
     return idx, r
